@@ -17,6 +17,8 @@ rows = []
 for d in sorted(glob.glob('/verif/seeded/*/meta.json')):
     meta = json.load(open(d))
     sid = meta['id']
+    if sid in res:
+        meta['checks_run'] = {}      # rebuilt from the logs given (latest run of each check wins)
     for chk, (st, det) in res.get(sid, {}).items():
         meta.setdefault('checks_run', {})[chk] = dict(tier='quick', outcome=st, detail=det)
     json.dump(meta, open(d, 'w'), indent=1)
